@@ -247,8 +247,9 @@ def request_strategy(nlev, nres, max_vars=4, max_its=6):
 @st.composite
 def sim_case(draw, classes, ghost_lo=1, unsupported=False, nlev_max=3,
              nmax=12, fixed_layout=True, group_pool=None, nres_max=3,
-             with_request=True, regrid=False):
-    nlev = draw(st.sampled_from([1, 1, 2, 2, 3][:2 * nlev_max - 1]))
+             with_request=True, regrid=False, nlev_choices=None):
+    nlev = draw(st.sampled_from(nlev_choices
+                                or [1, 1, 2, 2, 3][:2 * nlev_max - 1]))
     nres = draw(st.integers(1, nres_max))
     restarts = []
     need = [1, 1, 1]
